@@ -206,6 +206,25 @@ def function(ex: I.Executor, f, args, kwargs):
             if ex.branch(z3.Not(v.finite())):
                 raise OutOfSubset('Decimal.from_float(nan/inf)')
             return VDec(v.val, v.neg)
+    import fractions
+    if f is fractions.Fraction:
+        if len(args) == 2 and args[0].conc is not NOTCONC and args[1].conc is not NOTCONC:
+            fr = fractions.Fraction(args[0].conc, args[1].conc)
+            return VFrac(z3.RealVal(f'{fr.numerator}/{fr.denominator}'))
+        if len(args) == 1:
+            v = args[0]
+            if isinstance(v, VFloat):
+                if ex.branch(v.nan):
+                    ex.raise_py(ValueError)
+                if ex.branch(v.inf != 0):
+                    ex.raise_py(OverflowError)
+                return VFrac(v.val)
+            r = I.as_real_term(v)
+            if r is not None:
+                return VFrac(r)
+            if isinstance(v, VNone):
+                ex.raise_py(TypeError)
+        raise OutOfSubset('Fraction(...)')
     if f is decimal.localcontext:
         return VObj(I.DecimalLocalContext, {'prec': VInt(I.PREC)}, fresh=True)
     if f is math.floor or f is math.ceil:
@@ -221,6 +240,18 @@ def function(ex: I.Executor, f, args, kwargs):
             raise OutOfSubset(f'{name} of {v!r}')
         fl = I.smart_toint(r)
         return VInt(fl if f is math.floor else z3.If(z3.ToReal(fl) == r, fl, fl + 1))
+    if f is math.fmod:
+        # C fmod: exact remainder of the truncating division, sign of the dividend;
+        # ValueError for an infinite dividend or a zero divisor (T-DEP: C99 7.12.10.1, CPython mathmodule)
+        a, b = ex.to_float(args[0]), ex.to_float(args[1])
+        if ex.branch(z3.Or(a.nan, b.nan)):
+            return VFloat(True, 0, 0, False)
+        if ex.branch(z3.Or(a.inf != 0, z3.And(b.inf == 0, b.val == 0))):
+            ex.raise_py(ValueError)
+        if ex.branch(b.inf != 0):
+            return VFloat(False, 0, a.val, a.neg)
+        q = I.trunc_real(a.val / b.val)
+        return VFloat(False, 0, a.val - b.val * z3.ToReal(q), a.neg)
     if f is math.copysign:
         a, b = ex.to_float(args[0]), ex.to_float(args[1])
         mag = z3.If(a.val >= 0, a.val, -a.val)
@@ -267,9 +298,18 @@ def function(ex: I.Executor, f, args, kwargs):
         best = items[0]
         for it in items[1:]:
             c = ex.order('<' if f is min else '>', it, best)
-            if ex.branch(c):
+            m = ex.merge(c, it, best)
+            if m is not None:
+                best = m
+            elif ex.branch(c):
                 best = it
         return best
+    if f is slice:
+        if len(args) == 1:
+            return I.VSlice(None, args[0])
+        if len(args) == 2:
+            return I.VSlice(args[0], args[1])
+        raise OutOfSubset('slice with step')
     if f is range:
         a = [VInt(I.as_int_term(x)) if I.as_int_term(x) is not None else None for x in args]
         if any(x is None for x in a):
